@@ -14,7 +14,7 @@ PID = "C10"
 
 
 def wf_waiters(n: int, w: int, timeout: float | None, requirements: bool, two_waits: bool = False,
-               implicit_id: bool = False) -> type:
+               implicit_id: bool = False, pre_gate: bool = False) -> type:
     async def start(self, ctx, ev, inv):  # noqa: ANN001
         for i in range(n):
             ctx.send_event(Work(uid=i))
@@ -35,6 +35,8 @@ def wf_waiters(n: int, w: int, timeout: float | None, requirements: bool, two_wa
             inv.info["waits"].append((tag, "event", r))
             return r
 
+        if pre_gate:
+            await gate(f"pre{ev.uid}")  # the step does other work before it (re-)registers its wait
         r1 = await one_wait("")
         if two_waits and r1 is not None:
             await one_wait("b")
@@ -77,6 +79,10 @@ def on_tick(h: Any, tick: Any, adapter: Any) -> None:
         return
     for ws in h.pre_state.workers.values():
         for w in ws.collected_waiters:
+            if w.has_requirements and not w.requirements and w.resolved_event is None \
+                    and w.waiting_for_event is type(tick.event):
+                # a waiter restored from a snapshot whose step has not registered its requirements again yet
+                h.c10_unknown_req = True
             if (w.resolved_event is not None or getattr(w, "timed_out", False)) and w.waiting_for_event is type(tick.event) and all(
                     getattr(tick.event, k, None) == v for k, v in w.requirements.items()):
                 # ... and that replay really is still queued / running
@@ -89,6 +95,7 @@ def _ctx(h: Any, state: dict[str, Any]) -> dict[str, bool]:
     has_req = any(w.get("has_requirements") for ws in snap.get("workers", {}).values()
                   for w in ws.get("collected_waiters", []))
     return {"match_while_replay_in_flight": bool(getattr(h, "c10_dup", False)),
+            "event_while_requirements_unknown": bool(getattr(h, "c10_unknown_req", False)),
             "resumed_with_requirement_waiter": bool(has_req),
             "resumed": bool(state.get("resumed"))}
 
@@ -184,9 +191,11 @@ def specs(tier: str) -> list[Spec]:
     sp: list[Spec] = []
 
     def add(name: str, n: int, w: int, timeout: float | None, req: bool, events: list[tuple[str, str]],
-            resume: bool = False, two: bool = False, implicit: bool = False, max_dev: int | None = None) -> None:
-        sp.append(Spec(name, {"n": n, "w": w, "timeout": timeout, "requirements": req, "events": events, "two": two},
-                       (lambda: wf_waiters(n, w, timeout, req, two, implicit)), scripts=script(events), resume=resume,
+            resume: bool = False, two: bool = False, implicit: bool = False, max_dev: int | None = None,
+            pre: bool = False) -> None:
+        sp.append(Spec(name, {"n": n, "w": w, "timeout": timeout, "requirements": req, "events": events, "two": two,
+                              **({"pre_gate": True} if pre else {})},
+                       (lambda: wf_waiters(n, w, timeout, req, two, implicit, pre)), scripts=script(events), resume=resume,
                        max_dev=max_dev))
 
     d = 3 if q else 5
@@ -211,6 +220,10 @@ def specs(tier: str) -> list[Spec]:
     add("resume_two_inputs", 2, 2, None, True, [("Resp", "1"), ("Resp", "0")], resume=True, max_dev=d)
     add("resume_noreq", 1, 1, None, False, [("Resp", "x")], resume=True, max_dev=None)
     add("resume_timeout", 1, 1, 5.0, True, [("Resp", "0")], resume=True, max_dev=d)
+    # the waiting step does other work before wait_for_event: after a resume its requirements are unknown until it
+    # gets there again, and responses may arrive in that window
+    add("resume_pre_gate", 1, 1, None, True, [("Resp", "zz"), ("Resp", "0")], resume=True, pre=True, max_dev=d + 1)
+    add("resume_pre_gate_two_inputs", 2, 1, None, True, [("Resp", "1"), ("Resp", "0")], resume=True, pre=True, max_dev=d)
     if not q:
         add("three_inputs", 3, 2, None, True, [("Resp", "0"), ("Resp", "1"), ("Resp", "2"), ("Resp", "1")], max_dev=4)
         add("resume_dup", 1, 1, None, True, [("Resp", "0"), ("Resp", "0")], resume=True, max_dev=5)
